@@ -18,6 +18,20 @@ LATEST_VERSION = 1
 MAX_TIMESTAMP = 2**63 - 1
 MIN_TIMESTAMP = -(2**63)
 
+EPOCH = datetime(1970, 1, 1, tzinfo=timezone.utc)
+MICROSECOND = timedelta(microseconds=1)
+
+
+def _span_micros(event: Event):
+    """
+    Start and end of an event in whole microseconds since the epoch.
+    Computed with integers: a float of seconds cannot hold microseconds for
+    dates after 2038, which made stored durations come back 1 us off.
+    """
+    starttime = (event.timestamp - EPOCH) // MICROSECOND
+    return starttime, starttime + event.duration // MICROSECOND
+
+
 CREATE_BUCKETS_TABLE = """
     CREATE TABLE IF NOT EXISTS buckets (
         rowid INTEGER PRIMARY KEY AUTOINCREMENT,
@@ -237,8 +251,7 @@ class SqliteStorage(AbstractStorage):
 
     def insert_one(self, bucket_id: str, event: Event) -> Event:
         c = self.conn.cursor()
-        starttime = event.timestamp.timestamp() * 1000000
-        endtime = starttime + (event.duration.total_seconds() * 1000000)
+        starttime, endtime = _span_micros(event)
         datastr = json.dumps(event.data)
         c.execute(
             "INSERT INTO events(bucketrow, starttime, endtime, datastr) "
@@ -264,8 +277,7 @@ class SqliteStorage(AbstractStorage):
         events_insert = [e for e in events if e.id is None]
         event_rows = []
         for event in events_insert:
-            starttime = event.timestamp.timestamp() * 1000000
-            endtime = starttime + (event.duration.total_seconds() * 1000000)
+            starttime, endtime = _span_micros(event)
             datastr = json.dumps(event.data)
             event_rows.append((bucket_id, starttime, endtime, datastr))
         query = (
@@ -278,8 +290,7 @@ class SqliteStorage(AbstractStorage):
         self.conditional_commit(len(events_upsert) + len(event_rows))
 
     def replace_last(self, bucket_id, event):
-        starttime = event.timestamp.timestamp() * 1000000
-        endtime = starttime + (event.duration.total_seconds() * 1000000)
+        starttime, endtime = _span_micros(event)
         datastr = json.dumps(event.data)
         query = """UPDATE events
                    SET starttime = ?, endtime = ?, datastr = ?
@@ -306,8 +317,7 @@ class SqliteStorage(AbstractStorage):
         return True
 
     def _replace(self, bucket_id, event_id, event) -> None:
-        starttime = event.timestamp.timestamp() * 1000000
-        endtime = starttime + (event.duration.total_seconds() * 1000000)
+        starttime, endtime = _span_micros(event)
         datastr = json.dumps(event.data)
         query = """UPDATE events
                      SET starttime = ?,
